@@ -454,7 +454,7 @@ class Engine:
 
     def assume_class_range(self, ctx: Ctx, obj: Obj):
         """Closed world: the dynamic class of an abstract object is one of the repository's subclasses."""
-        subs = [c for c in obj.cls.all_subclasses()]
+        subs = [c for c in obj.cls.instantiable_subclasses()]
         ctx.assume(z3.Or(*[self.tag_fn(obj.ref) == self.class_id(c) for c in subs]))
 
     @staticmethod
@@ -745,7 +745,7 @@ class Engine:
             i = z3.FreshConst(z3.IntSort(), "i")
             cls = self.repo.cls(v.kind.clsname)
             el = z3.Select(v.arr, i)
-            rng = z3.Or(*[self.tag_fn(el) == self.class_id(c) for c in cls.all_subclasses()])
+            rng = z3.Or(*[self.tag_fn(el) == self.class_id(c) for c in cls.instantiable_subclasses()])
             ctx.add_axiom(z3.ForAll([i], z3.Implies(z3.And(0 <= i, i < v.length), rng), patterns=[el]))
         elif isinstance(v, OptV):
             self.assume_wellformed(ctx, v.val)
@@ -770,7 +770,9 @@ class Engine:
             guard = z3.Or(*[self.tag_fn(r) == self.class_id(c) for c in cls.all_subclasses()])
             pats = _uf_apps_on(body, r)
             own = [p for p in pats if p.decl().name().startswith("fld!%s!" % cls.name)]
-            pats = own or pats
+            own_ids = set(p.get_id() for p in own)
+            inherited = [p for p in pats if p.decl().name().startswith("fld!") and p.get_id() not in own_ids]
+            pats = (own + inherited) or pats
             out.append(("class-invariant:" + cls.name, "established by %s.__init__ (obligation inv#...)" % cls.name,
                         z3.ForAll([r], z3.Implies(guard, body), patterns=pats[:8])))
             for k_, a_ in enumerate(ctx.axioms):
@@ -790,7 +792,7 @@ class Engine:
                         continue
                     f = self.uf("fld!%s!%s" % (cls.name, fname), V.RefSort, V.RefSort)
                     guard = z3.Or(*[self.tag_fn(r) == self.class_id(c) for c in cls.all_subclasses()])
-                    rng = z3.Or(*[self.tag_fn(f(r)) == self.class_id(c) for c in fcls.all_subclasses()])
+                    rng = z3.Or(*[self.tag_fn(f(r)) == self.class_id(c) for c in fcls.instantiable_subclasses()])
                     out.append(("closed-world:%s.%s" % (cls.name, fname),
                                 "closed world: the dynamic class of an object-valued field is a repository subclass of its "
                                 "declared class", z3.ForAll([r], z3.Implies(guard, rng), patterns=[f(r)])))
